@@ -385,5 +385,27 @@ func checkFold(s *eng.Session, tpl, x, y string) (*failure, bool) {
 	if a.err == "unsupported" || b.err == "unsupported" || (a.err != "" && b.err != "" && a.err == b.err) {
 		return nil, false
 	}
-	return compare(a, b), a.err == "" && len(a.rows) == 1 && a.rows[0] != "(NULL)"
+	if f := compare(a, b); f != nil {
+		return f, true
+	}
+	// the same expression as a filter, plain and under NOT, with both / one / no operand constant:
+	// the analyzer simplifies filters with constant operands (x AND NULL, x OR TRUE, …) by rules of
+	// its own, which must agree with evaluating the expression on the row
+	for _, wrap := range []string{"%s", "NOT (%s)"} {
+		ref := run(s, "SELECT COUNT(*) FROM one WHERE "+fmt.Sprintf(wrap, substXY(tpl, "one.x", "one.y")))
+		for _, v := range [][2]string{{x, y}, {"one.x", y}, {x, "one.y"}} {
+			q := "SELECT COUNT(*) FROM one WHERE " + fmt.Sprintf(wrap, substXY(tpl, v[0], v[1]))
+			o := run(s, q)
+			if o.err == "unsupported" || ref.err == "unsupported" || (o.err != "" && ref.err != "" && o.err == ref.err) {
+				continue
+			}
+			if f := compare(o, ref); f != nil {
+				f.kind = "filter-" + f.kind
+				f.obs = q + " -> " + f.obs
+				f.exp = "with both operands read from the row: " + f.exp
+				return f, true
+			}
+		}
+	}
+	return nil, a.err == "" && len(a.rows) == 1 && a.rows[0] != "(NULL)"
 }
